@@ -139,6 +139,26 @@ func (ex *Exec) getRegion(st *State, name string, s *Sort) *Term {
 }
 
 func (ex *Exec) havocAll(st *State) {
+	// variables of the function under execution that live in allocated cells (captured by its own closures)
+	// are not reachable from a callee that does not receive them: they keep their values
+	type keep struct {
+		name string
+		ref  *Term
+		val  *Term
+	}
+	var kept []keep
+	for ref, name := range ex.localCellRefs {
+		if s, ok := ex.regionSorts[name]; ok {
+			r := ex.getRegion(st, name, s)
+			kept = append(kept, keep{name, ref, ex.p.Select(r, ref)})
+		}
+	}
+	defer func() {
+		for _, k := range kept {
+			r := ex.getRegion(st, k.name, ex.regionSorts[k.name])
+			st.heap[k.name] = ex.p.Store(r, k.ref, k.val)
+		}
+	}()
 	ex.epochN++
 	st.epoch = ex.epochN
 	st.heap = map[string]*Term{}
